@@ -327,15 +327,54 @@ def annotate_closures(sf, ed, spec, lo, hi, used):
     `simple == simple` / `simple != simple` gets `ensures result == (body)` automatically (rule A1)."""
     st = sf.st
     hints = {}
+    nhints = {}
+
+    def alpha(texts):
+        """(normalised token tuple, [param names]) for a closure literal whose parameters are plain identifiers;
+        None otherwise. Lets a hint survive a mere renaming of the closure parameter."""
+        if not texts or texts[0] != '|':
+            return None
+        try:
+            pc_ = texts.index('|', 1)
+        except ValueError:
+            return None
+        params = [t for t in texts[1:pc_] if t != ',']
+        if not params or not all(IDENT_ONLY.match(t) for t in params) or len(set(params)) != len(params):
+            return None
+        ren = {n: '$%d' % i for i, n in enumerate(params)}
+        out = []
+        for k, t in enumerate(texts):
+            prev = texts[k - 1] if k else ''
+            out.append(ren[t] if (t in ren and prev != '.') else t)
+        return tuple(out), params
+
     for key in spec.sections:
         if isinstance(key, tuple) and key[0] == 'closuret':
-            hints[tuple(plain_texts(key[1]))] = key
+            pt = tuple(plain_texts(key[1]))
+            hints[pt] = key
+            a = alpha(list(pt))
+            if a is not None:
+                nhints[a[0]] = (key, a[1])
+    matched = set()
     for (po, pc, b0, b1, is_block) in find_closures(sf, lo, hi):
         texts = tuple(t.text for t in st[po:b1 + 1])
         key = hints.get(texts)
+        hint_text = spec.sections[key] if key is not None else None
+        if key is None:
+            a = alpha(list(texts))
+            if a is not None and a[0] in nhints:
+                key, hparams = nhints[a[0]]
+                hint_text = spec.sections[key]
+                # the hint names the closure parameter(s): follow the renaming (simultaneous substitution)
+                tmp = {hp: '\0VX%d\0' % i for i, hp in enumerate(hparams)}
+                for hp, t_ in tmp.items():
+                    hint_text = re.sub(r'(?<![A-Za-z0-9_.])%s(?![A-Za-z0-9_])' % re.escape(hp), t_, hint_text)
+                for i, np_ in enumerate(a[1]):
+                    hint_text = hint_text.replace('\0VX%d\0' % i, np_)
         if key is not None:
-            ed.ins(st[pc].end, ' ' + spec.sections[key] + ' ')
+            ed.ins(st[pc].end, ' ' + hint_text + ' ')
             used.add(key)
+            matched.add(key)
         elif not is_block and st[pc + 1].text != '->' and not any(t.text in OPEN for t in st[po + 1:pc]):
             body = [t.text for t in st[b0:b1 + 1]]
             ops = [k for k, tx in enumerate(body) if tx in ('==', '!=')]
@@ -349,7 +388,14 @@ def annotate_closures(sf, ed, spec, lo, hi, used):
             ed.ins(st[b0].start, '{ ')
             ed.ins(st[b1].end, ' }')
     for key in hints.values():
-        used.add(key)     # an unmatched hint is not an error: the closure it was written for is gone
+        used.add(key)
+        if key not in matched:
+            # the closure this contract was written for is gone or has changed: without its contract the enclosing
+            # function cannot be decided (a failed proof would not mean anything)
+            raise ExtractError('%s: closure hint <<%s>> matches no closure (anchor lost)' % (spec.path, key[1]))
+
+
+IDENT_ONLY = re.compile(r'^[A-Za-z_][A-Za-z0-9_]*$')
 
 
 def find_token_seq(sf, lo, hi, texts):
@@ -1105,4 +1151,6 @@ if __name__ == '__main__':
     except ExtractError as e:
         print('UNDECIDED extract: %s' % e)
         sys.exit(2)
+    for d in DEGRADED:
+        print('DEGRADED %s [%s] %s: %s' % (d.get('region'), ','.join(d.get('props', [])), d.get('how'), d.get('reason')))
     print(meta['file'])
